@@ -253,8 +253,53 @@ def _projection():
     return out
 
 
+def _symmetry():
+    out = []
+    # three and four candidate joins in one body; some of them are unusable because a compared variable occurs elsewhere,
+    # others share their compared variables
+    joins = {
+        "at": "at(X,Y,T), at(X,Y,U)",
+        "minot": "minot(Z,W,T), minot(Z,W,U)",
+        "q": "q(A), q(B), A != B",
+        "qblocked": "q(A), q(B), A != B, r(A)",
+        "s": "s(C), s(D), C < D",
+        "sblocked": "s(C), s(D), C < D, r(D)",
+    }
+    combos = [
+        ("at", "minot", "qblocked"), ("qblocked", "at", "minot"), ("at", "qblocked", "minot"), ("at", "minot", "q"),
+        ("at", "minot", "sblocked"), ("sblocked", "at", "minot"), ("at", "minot", "q", "sblocked"), ("qblocked", "sblocked", "at", "minot"),
+        ("q", "s"), ("qblocked", "s"), ("q", "sblocked"), ("at", "q"), ("at", "qblocked"),
+    ]
+    for combo in combos:
+        body = ", ".join(joins[c] for c in combo)
+        if "at" in combo or "minot" in combo:
+            body += ", T != U"
+        for head in ("bad", ""):
+            out.append({"program": f"{head} :- {body}.", "tag": f"x-symmetry-many-joins:{'+'.join(combo)}", "trait": "symmetry", "out": [["bad", 0]] if head else []})
+    # compared variables that only occur in the priority / weight / tuple of a weak constraint
+    for tup in ("[1@P1]", "[1@1,P1]", "[P1@1]", "[1@P1,X]", "[1@1,X]", "[1@V1,X]", "[V1@P1]"):
+        out.append({"program": f":~ player(P1,X,V1), player(P2,X,V2), P1 != P2, V1 != V2. {tup}", "tag": f"x-symmetry-weak-tuple:{tup}", "trait": "symmetry"})
+        out.append({"program": f":~ assign(P1,X), assign(P2,X), P1 != P2. {tup.replace('V1', 'P2')}", "tag": f"x-symmetry-weak-tuple1:{tup}", "trait": "symmetry"})
+    return out
+
+
+def _math():
+    out = []
+    # variables that are only needed by the condition of a head element
+    heads = ["{ h(Y) : d(Y) }", "h(Y) : d(Y) ; g", "1 <= #count { Y : h(Y) : d(Y) }", "{ h(Y) }", "h(Y)", "{ h(X,Y) : d(Y) } 1", "#sum { Y : h(Y) : d(Y) } <= 3"]
+    bodies = ["b(X), Y = X+1", "b(X), Y = 2*X", "b(X), Y+1 = X", "b(X), b(Z), Y = X+Z", "b(X), Y = X+1, Y > 1", "b(X), X = Y"]
+    for h, b in itertools.product(heads, bodies):
+        out.append({"program": f"{h} :- {b}.", "tag": "x-math-head-condition-variable", "trait": "math", "in": [["b", 1], ["d", 1]]})
+    # coefficients other than +-1 on the eliminated value, followed by another comparison over it
+    for rel in ("Z = 2*Y, Y > X", "2*Y = Z, Y >= X", "Z = 3*Y, Y != X", "Z = 2*Y+1, Y > X", "Z = -2*Y, Y < X"):
+        out.append({"program": f"a(X,Z) :- b(X), b(Z), {rel}.", "tag": "x-math-nonunit-coefficient", "trait": "math", "in": [["b", 1]]})
+    for rel in ("2*X = Z, X > 1", "3*X = Z, X != 2", "2*X+1 = Z, X >= 1", "X = 2*Z, Z > 0"):
+        out.append({"program": "{ sel(V) } :- p(V).\n" + f"a(Z) :- X = #sum {{ V : sel(V) }}, r(Z), {rel}.", "tag": "x-math-nonunit-coefficient-agg", "trait": "math", "in": [["p", 1], ["r", 1]]})
+    return out
+
+
 def programs():
-    out = _cleanup() + _minmax() + _sumchains() + _normalize() + _unused() + _duplication() + _robust() + _domains() + _projection()
+    out = _symmetry() + _math() + _cleanup() + _minmax() + _sumchains() + _normalize() + _unused() + _duplication() + _robust() + _domains() + _projection()
     # the harness samples stratified by tag: give every variant of a class its own tag (class#variant)
     seen: dict = {}
     for prog in out:
